@@ -6,6 +6,7 @@ from engine.rulelib import fnview
 from engine.cfg import render, strip_ref, subexprs
 
 CRATES = ["lightning_signer"]
+OPTIONAL_CRATES = ["vls_persist"]
 LS = "lightning_signer::"
 ST = LS + "monitor::State"
 TR = LS + "chain::tracker::ChainTracker::<L>"
@@ -44,6 +45,9 @@ MUTATORS = {"set_our_output_spent", "set_htlc_output_spent", "set_second_level_h
 INVERSE_MUT = {"add_second_level_htlc_output": "remove_second_level_htlc_output"}
 
 
+CLAIM["text"] += (" (R14.13) restart clause, where the build has a persistence layer: every persisted field of channel entry, node "
+                  "state, tracker and monitors is serialised and restored into the same slot (same obligations as C11 R11.2).")
+
 def run(ctx):
     ctx.explanation = CLAIM["text"]
     ctx.not_decided = "view equality with a fresh replay for all histories; general panic-freedom"
@@ -65,6 +69,7 @@ def run(ctx):
     r1410(ctx)
     r1411(ctx)
     r1412(ctx)
+    r_restore(ctx)
 
 
 def arms(ctx, body, variants):
@@ -670,3 +675,8 @@ def r1412(ctx):
                    f"{'connects' if fn == 'add_block' else 'disconnects'} is {what}: a streamed block (delivered under its own "
                    "hash) is refused with BlockDecodeError, and the request handler treats a refused removal as fatal",
                    where=f"{b.file}:{ln}", sample=h[:70])
+
+
+def r_restore(ctx):
+    from rules import C11 as _c11
+    _c11.shared_restore(ctx, "R14.13", "the monitors' State (heights, closing outpoints, spent flags, seen set) is what a restarted signer continues from.")
